@@ -24,7 +24,11 @@ pub mod textgen;
 
 pub fn dispatch(id: &str, cfg: Config) -> i32 {
     match id {
-        "C01" => crate::run_prop(c01::C01, cfg),
+        "C01" => {
+            let rc = crate::run_prop(c01::C01, cfg);
+            c20::cleanup();
+            rc
+        }
         "C02" => crate::run_prop(c02::C02, cfg),
         "C03" => crate::run_prop(c03::C03, cfg),
         "C04" => crate::run_prop(c04::C04, cfg),
